@@ -31,6 +31,8 @@ use crate::{
 };
 
 pub mod circuit_breaker;
+#[cfg(feature = "verif-hooks")]
+pub mod verif;
 pub mod confirmation;
 pub mod read;
 pub mod subscription;
